@@ -19,6 +19,15 @@ Lemma mreadz_app m p n k : 0 <= n -> 0 <= k -> mreadz m p (n + k) = mreadz m p n
 Proof.
   intros. unfold mreadz. rewrite Z2Nat.inj_add by lia. rewrite mread_app. do 2 f_equal. lia.
 Qed.
+Lemma length_mread m p k : length (mread m p k) = k.
+Proof. revert p. induction k; intro p; cbn; auto. Qed.
+Lemma zlen_mreadz m p n : 0 <= n -> zlen (mreadz m p n) = n.
+Proof. intro. unfold mreadz, zlen. rewrite length_mread. lia. Qed.
+Lemma app_inv_len {A} (a c b d : list A) : length a = length c -> a ++ b = c ++ d -> a = c /\ b = d.
+Proof.
+  revert c. induction a; destruct c; cbn; intros L E; try discriminate; auto.
+  injection E as -> E. injection L as L. destruct (IHa _ L E) as [-> ->]. auto.
+Qed.
 Lemma mreadz_0 m p : mreadz m p 0 = [].
 Proof. reflexivity. Qed.
 
@@ -60,14 +69,10 @@ Proof.
   rewrite (mreadz_app m1 dst 32 (len + zlen junk)) in Hall by lia.
   rewrite (mreadz_app m1 (dst + 32) len (zlen junk)) in Hall by lia.
   assert (Hw : mreadz m1 dst 32 = word len /\ mreadz m1 (dst + 32) len = data).
-  { assert (L1 : zlen (mreadz m1 dst 32) = zlen (word len)).
-    { rewrite zlen_word. unfold mreadz, zlen. clear. induction (Z.to_nat 32) in dst |- *; cbn; auto. }
-    apply app_inv_length in Hall; [|unfold zlen in L1; lia]. destruct Hall as [A B]. split; auto.
-    assert (L2 : zlen (mreadz m1 (dst + 32) len) = zlen data).
-    { fold len. unfold mreadz, zlen. rewrite Nat2Z.id || idtac.
-      clear - Hl. unfold len. unfold zlen. rewrite Nat2Z.id.
-      generalize (dst + 32). induction (length data); intro p; cbn; auto. }
-    apply app_inv_length in B; [|unfold zlen in L2; lia]. tauto. }
+  { pose proof (zlen_mreadz m1 dst 32 ltac:(lia)) as L1. pose proof (zlen_word len) as L1'.
+    apply app_inv_len in Hall; [|unfold zlen in *; lia]. destruct Hall as [A B]. split; auto.
+    pose proof (zlen_mreadz m1 (dst + 32) len ltac:(lia)) as L2.
+    apply app_inv_len in B; [|unfold len, zlen in *; lia]. tauto. }
   destruct Hw as [Hw Hd].
   destruct (zero_pad_spec_legacy m1 dst data) as [Hr Hf]; auto.
   { unfold mreadz in Hd. fold len. rewrite <- Hd at 2. f_equal. unfold len, zlen. lia. }
@@ -77,3 +82,286 @@ Proof.
   - intros a Ha. rewrite mzero_frame by lia. unfold m1. apply mwrite_frame.
     rewrite !zlen_app, zlen_word. fold len. lia.
 Qed.
+
+(* ---------- sequences ---------- *)
+Definition spec_of (f : enc_t) (e : list Z) (B : Z) : Prop :=
+  forall m d, snd (f m d) = zlen e /\ mreadz (fst (f m d)) d (zlen e) = e /\
+              forall a, a < d \/ d + B <= a -> fst (f m d) a = m a.
+
+Definition child_ok (c : bool * Z * enc_t) (p : bool * list Z) (B : Z) : Prop :=
+  fst (fst c) = fst p /\ snd (fst c) = (if fst p then 32 else zlen (snd p)) /\
+  zlen (snd p) <= B /\ (fst p = false -> B = zlen (snd p)) /\ spec_of (snd c) (snd p) B.
+
+Fixpoint dynsum (parts : list (bool * list Z)) (Bs : list Z) : Z :=
+  match parts, Bs with
+  | (true, _) :: r, B :: bs => B + dynsum r bs
+  | (false, _) :: r, _ :: bs => dynsum r bs
+  | _, _ => 0
+  end.
+
+Lemma dynsum_nonneg cs parts Bs : Forall3 child_ok cs parts Bs -> 0 <= dynsum parts Bs.
+Proof.
+  induction 1 as [|c p B cs parts Bs Hok HF IH]; cbn [dynsum]. lia.
+  destruct p as [[|] e]; destruct Hok as (_ & _ & Hle & _); cbn [snd] in Hle; pose proof (zlen_nonneg e); lia.
+Qed.
+
+Lemma venc_seq_ok hf all dst BOUND (m0 : mem) :
+  forall cs parts Bs, Forall3 child_ok cs parts Bs ->
+  forall p1 m, all = p1 ++ parts ->
+    mreadz m dst (head_len p1) = heads p1 (head_len all) ->
+    mreadz m (dst + head_len all) (zlen (tails p1)) = tails p1 ->
+    (forall a, a < dst \/ dst + BOUND <= a -> m a = m0 a) ->
+    head_len all + zlen (tails p1) + dynsum parts Bs <= BOUND ->
+    let r := venc_seq hf cs m dst (head_len p1) (head_len all + zlen (tails p1)) in
+    snd r = head_len all + zlen (tails all) /\
+    mreadz (fst r) dst (head_len all) = heads all (head_len all) /\
+    mreadz (fst r) (dst + head_len all) (zlen (tails all)) = tails all /\
+    (forall a, a < dst \/ dst + BOUND <= a -> fst r a = m0 a).
+Proof.
+  intros cs parts Bs HF. induction HF as [|c p B cs parts Bs Hok HF IH]; intros p1 m Hall I1 I2 I3 I4.
+  - rewrite app_nil_r in Hall. subst p1. cbn [venc_seq fst snd]. auto.
+  - destruct c as [[dyn hs] f]. destruct p as [d' e].
+    destruct Hok as (Hd & Hhs & Hle & HB & Hspec). cbn [fst snd] in *. subst dyn.
+    pose proof (dynsum_nonneg _ _ _ HF) as Hds.
+    pose proof (head_len_nonneg p1) as Hso0. pose proof (zlen_nonneg (tails p1)) as HT0.
+    pose proof (zlen_nonneg e) as He0. pose proof (head_len_nonneg parts) as Hr0.
+    set (H := head_len all) in *. set (so := head_len p1) in *. set (T := zlen (tails p1)) in *.
+    assert (Hhead : H = so + (if d' then 32 else zlen e) + head_len parts).
+    { unfold H, so. rewrite Hall, head_len_app. destruct d'; cbn [head_len]; lia. }
+    assert (Hall' : all = (p1 ++ [(d', e)]) ++ parts) by (rewrite Hall, <- app_assoc; reflexivity).
+    cbn [venc_seq]. unfold venc_child. cbn [dynsum] in I4.
+    destruct d'.
+    + (* dynamic child *)
+      subst hs.
+      assert (Hhl : head_len (p1 ++ [(true, e)]) = so + 32) by (rewrite head_len_app; cbn [head_len]; lia).
+      assert (Htl : tails (p1 ++ [(true, e)]) = tails p1 ++ e) by (rewrite tails_app; cbn [tails]; now rewrite app_nil_r).
+      assert (Hhd : heads (p1 ++ [(true, e)]) H = heads p1 H ++ word (H + T))
+        by (rewrite heads_app; cbn [heads]; now rewrite app_nil_r).
+      destruct hf; cbn [fst snd].
+      * (* head first *)
+        set (m1 := mstore m (dst + so) (H + T)).
+        destruct (Hspec m1 (dst + (H + T))) as (Hn & Hr & Hf). rewrite Hn.
+        set (m2 := fst (f m1 (dst + (H + T)))) in *.
+        specialize (IH (p1 ++ [(true, e)]) m2 Hall').
+        rewrite Hhl, Htl, Hhd, zlen_app in IH. fold T in IH.
+        replace (H + (T + zlen e)) with (H + T + zlen e) in IH by lia.
+        apply IH; clear IH.
+        -- rewrite mreadz_app by lia. f_equal.
+           ++ rewrite <- I1. apply mreadz_ext. intros a Ha. rewrite Hf by lia. unfold m1, mstore.
+              apply mwrite_frame. lia.
+           ++ transitivity (mreadz m1 (dst + so) 32).
+              { apply mreadz_ext. intros a Ha. apply Hf. lia. }
+              pose proof (mreadz_mwrite m (dst + so) (word (H + T))) as X. rewrite zlen_word in X. exact X.
+        -- rewrite mreadz_app by lia. f_equal.
+           ++ rewrite <- I2. apply mreadz_ext. intros a Ha. rewrite Hf by lia. unfold m1, mstore.
+              apply mwrite_frame. rewrite zlen_word. lia.
+           ++ replace (dst + H + T) with (dst + (H + T)) by lia. exact Hr.
+        -- intros a Ha. rewrite Hf by lia. unfold m1, mstore. rewrite mwrite_frame by (rewrite zlen_word; lia).
+           apply I3. lia.
+        -- lia.
+      * (* tail first *)
+        destruct (Hspec m (dst + (H + T))) as (Hn & Hr & Hf). rewrite Hn.
+        set (m1 := fst (f m (dst + (H + T)))) in *.
+        set (m2 := mstore m1 (dst + so) (H + T)).
+        specialize (IH (p1 ++ [(true, e)]) m2 Hall').
+        rewrite Hhl, Htl, Hhd, zlen_app in IH. fold T in IH.
+        replace (H + (T + zlen e)) with (H + T + zlen e) in IH by lia.
+        apply IH; clear IH.
+        -- rewrite mreadz_app by lia. f_equal.
+           ++ rewrite <- I1. apply mreadz_ext. intros a Ha. unfold m2, mstore. rewrite mwrite_frame by lia.
+              apply Hf. lia.
+           ++ pose proof (mreadz_mwrite m1 (dst + so) (word (H + T))) as X. rewrite zlen_word in X. exact X.
+        -- rewrite mreadz_app by lia. f_equal.
+           ++ rewrite <- I2. apply mreadz_ext. intros a Ha. unfold m2, mstore.
+              rewrite mwrite_frame by (rewrite zlen_word; lia). apply Hf. lia.
+           ++ replace (dst + H + T) with (dst + (H + T)) by lia. rewrite <- Hr at 2.
+              apply mreadz_ext. intros a Ha. unfold m2, mstore. apply mwrite_frame. rewrite zlen_word. lia.
+        -- intros a Ha. unfold m2, mstore. rewrite mwrite_frame by (rewrite zlen_word; lia).
+           rewrite Hf by lia. apply I3. lia.
+        -- lia.
+    + (* static child *)
+      subst hs. specialize (HB eq_refl). subst B.
+      assert (Hhl : head_len (p1 ++ [(false, e)]) = so + zlen e) by (rewrite head_len_app; cbn [head_len]; lia).
+      assert (Htl : tails (p1 ++ [(false, e)]) = tails p1) by (rewrite tails_app; cbn [tails]; now rewrite app_nil_r).
+      assert (Hhd : heads (p1 ++ [(false, e)]) H = heads p1 H ++ e)
+        by (rewrite heads_app; cbn [heads]; now rewrite app_nil_r).
+      cbn [fst snd].
+      destruct (Hspec m (dst + so)) as (Hn & Hr & Hf).
+      set (m1 := fst (f m (dst + so))) in *.
+      specialize (IH (p1 ++ [(false, e)]) m1 Hall').
+      rewrite Hhl, Htl, Hhd in IH. fold T in IH.
+      apply IH; clear IH.
+      -- rewrite mreadz_app by lia. f_equal.
+         ++ rewrite <- I1. apply mreadz_ext. intros a Ha. apply Hf. lia.
+         ++ exact Hr.
+      -- rewrite <- I2. apply mreadz_ext. intros a Ha. apply Hf. lia.
+      -- intros a Ha. rewrite Hf by lia. apply I3. lia.
+      -- lia.
+Qed.
+
+(* ---------- the encoders ---------- *)
+Section Enc.
+Variable S : strat. (*section*)
+Hypothesis HS : wbytes_ok S. (*section*)
+
+Definition venc_ok (t : ty) : Prop :=
+  forall v, wf_ty t = true -> in_type t v = true -> spec_of (venc S t v) (enc t v) (size_bound t).
+
+Lemma size_bound_static t : is_dynamic t = false -> size_bound t = static_size t.
+Proof. intro H. unfold size_bound. rewrite (static_dyn_bound_zero t H). lia. Qed.
+
+Lemma venc_static t v : is_dynamic t = false -> wf_ty t = true -> in_type t v = true ->
+  spec_of (venc S t v) (enc t v) (size_bound t).
+Proof.
+  intros Hd Hwf Hin m d.
+  assert (E : venc S t v m d = (mwrite m d (enc t v), static_size t)) by (destruct t; cbn [venc]; rewrite Hd; reflexivity).
+  rewrite E. cbn [fst snd]. pose proof (enc_len_static t v Hwf Hin Hd) as L.
+  split; [lia|]. split. apply mreadz_mwrite.
+  intros a Ha. apply mwrite_frame. rewrite size_bound_static in Ha by auto. lia.
+Qed.
+
+Lemma child_ok_intro t v : wf_ty t = true -> in_type t v = true -> venc_ok t ->
+  child_ok (is_dynamic t, emb_static t, venc S t v) (is_dynamic t, enc t v) (size_bound t).
+Proof.
+  intros Hwf Hin IH. unfold child_ok. cbn [fst snd]. split; [reflexivity|]. split.
+  { unfold emb_static. destruct (is_dynamic t) eqn:Hd; [reflexivity|]. symmetry. now apply enc_len_static. }
+  split. now apply enc_len_le_size_bound. split.
+  { intro Hd. rewrite size_bound_static by auto. symmetry. now apply enc_len_static. }
+  now apply IH.
+Qed.
+
+Definition embdyn (t : ty) : Z := if is_dynamic t then size_bound t else 0.
+
+Lemma arr_children t vs : wf_ty t = true -> venc_ok t -> Forall (fun v => in_type t v = true) vs ->
+  Forall3 child_ok (map (fun x => (is_dynamic t, emb_static t, venc S t x)) vs)
+          (map (fun x => (is_dynamic t, enc t x)) vs) (map (fun _ => size_bound t) vs) /\
+  head_len (map (fun x => (is_dynamic t, enc t x)) vs) = zlen vs * emb_static t /\
+  dynsum (map (fun x => (is_dynamic t, enc t x)) vs) (map (fun _ => size_bound t) vs) = zlen vs * embdyn t.
+Proof.
+  intros Hwf IH HF. induction HF as [|v vs Hv HF IHF]; cbn [map head_len dynsum].
+  - split. constructor. split; cbn; lia.
+  - destruct IHF as (F3 & HL & DS). split. constructor; auto. now apply child_ok_intro.
+    rewrite zlen_cons. unfold emb_static, embdyn in *. destruct (is_dynamic t) eqn:Hd.
+    + split; lia.
+    + rewrite (enc_len_static t v Hwf Hv Hd). split; lia.
+Qed.
+
+Lemma tuple_children ts : Forall venc_ok ts -> forall vs,
+  forallb wf_ty ts = true -> zip_all (map in_type ts) vs = true ->
+  Forall3 child_ok (zip_enc (map (fun t' => (is_dynamic t', emb_static t', venc S t')) ts) vs)
+          (zip_apply (map (fun t' => (is_dynamic t', enc t')) ts) vs) (map size_bound ts) /\
+  head_len (zip_apply (map (fun t' => (is_dynamic t', enc t')) ts) vs) = zsum (map emb_static ts) /\
+  dynsum (zip_apply (map (fun t' => (is_dynamic t', enc t')) ts) vs) (map size_bound ts) = zsum (map embdyn ts).
+Proof.
+  induction 1 as [|t ts Ht HF IH]; intros vs Hwf Hin; destruct vs as [|v vs];
+    cbn [map zip_all zip_apply zip_enc forallb head_len dynsum] in *; try discriminate.
+  - split. constructor. split; reflexivity.
+  - apply andb_prop in Hwf as [Hwt Hwl]. apply andb_prop in Hin as [Hit Hil].
+    destruct (IH vs Hwl Hil) as (F3 & HL & DS). split. constructor; auto. now apply child_ok_intro.
+    rewrite !zsum_cons. unfold emb_static, embdyn in *. destruct (is_dynamic t) eqn:Hd.
+    + split; lia.
+    + rewrite (enc_len_static t v Hwt Hit Hd). split; lia.
+Qed.
+
+Lemma sb_nonneg t : wf_ty t = true -> 0 <= emb_static t + embdyn t.
+Proof.
+  intro H. destruct (sizes_nonneg t H). unfold emb_static, embdyn, size_bound. destruct (is_dynamic t); lia.
+Qed.
+
+Theorem venc_spec : forall t, venc_ok t.
+Proof.
+  induction t using ty_ind'; intros v Hwf Hin;
+    try (apply venc_static; auto; reflexivity).
+  - (* bytes *)
+    destruct v as [|data|]; try (cbn in Hin; discriminate). cbn [in_type wf_ty] in *.
+    apply andb_prop in Hin as [Hl _]. intros m d. cbn [venc is_dynamic negb fst snd].
+    pose proof (zlen_nonneg data). destruct (HS m d data b ltac:(lia)) as [Hr Hf].
+    change (enc (TBytes b) (VBytes data)) with (enc_bytes data).
+    assert (L : zlen (enc_bytes data) = 32 + ceil32 (zlen data)).
+    { unfold enc_bytes. rewrite !zlen_app, zlen_word, zlen_zeros. pose proof (pad32_range (zlen data)).
+      rewrite pad32_spec in *. lia. }
+    rewrite L. split; [reflexivity|]. split; [exact Hr|].
+    intros a Ha. apply Hf. unfold size_bound in Ha. cbn [static_size dynamic_size_bound] in Ha. lia.
+  - (* string *)
+    destruct v as [|data|]; try (cbn in Hin; discriminate). cbn [in_type wf_ty] in *.
+    apply andb_prop in Hin as [Hl _]. intros m d. cbn [venc is_dynamic negb fst snd].
+    pose proof (zlen_nonneg data). destruct (HS m d data b ltac:(lia)) as [Hr Hf].
+    change (enc (TString b) (VBytes data)) with (enc_bytes data).
+    assert (L : zlen (enc_bytes data) = 32 + ceil32 (zlen data)).
+    { unfold enc_bytes. rewrite !zlen_app, zlen_word, zlen_zeros. pose proof (pad32_range (zlen data)).
+      rewrite pad32_spec in *. lia. }
+    rewrite L. split; [reflexivity|]. split; [exact Hr|].
+    intros a Ha. apply Hf. unfold size_bound in Ha. cbn [static_size dynamic_size_bound] in Ha. lia.
+  - (* sarr *)
+    destruct (is_dynamic (TSArr t n)) eqn:Hd; [|apply venc_static; auto].
+    destruct v as [| |vs]; try (cbn in Hin; discriminate). cbn [in_type wf_ty] in *.
+    apply andb_prop in Hin as [Hn Hall]. apply andb_prop in Hwf as [Hn1 Hw].
+    assert (HF : Forall (fun v => in_type t v = true) vs) by (apply Forall_forall; rewrite forallb_forall in Hall; auto).
+    destruct (arr_children t vs Hw IHt HF) as (F3 & HL & DS).
+    intros m d. cbn [venc]. cbn [is_dynamic] in Hd. cbn [is_dynamic]. rewrite Hd. cbn [negb enc].
+    set (all := map (fun x => (is_dynamic t, enc t x)) vs) in *.
+    assert (Hss : static_size (TSArr t n) = head_len all) by (rewrite HL; cbn [static_size]; unfold emb_static; nia).
+    rewrite Hss.
+    pose proof (venc_seq_ok (head_first S) all d (size_bound (TSArr t n)) m _ _ _ F3 [] m eq_refl) as Q.
+    cbn [head_len tails app] in Q. rewrite Z.add_0_r in Q.
+    destruct Q as (Q1 & Q2 & Q3 & Q4); auto.
+    { rewrite DS, HL. unfold size_bound. cbn [static_size dynamic_size_bound]. unfold emb_static, embdyn, size_bound. rewrite Hd. nia. }
+    pose proof (head_len_nonneg all). pose proof (zlen_nonneg (tails all)).
+    assert (L : zlen (enc_seq all) = head_len all + zlen (tails all)) by (unfold enc_seq; rewrite zlen_app, zlen_heads; lia).
+    rewrite L. split; [exact Q1|]. split; [|exact Q4].
+    rewrite mreadz_app by lia. unfold enc_seq. now rewrite Q2, Q3.
+  - (* darr *)
+    destruct v as [| |vs]; try (cbn in Hin; discriminate). cbn [in_type wf_ty] in *.
+    apply andb_prop in Hin as [Hn Hall]. apply andb_prop in Hwf as [Hn1 Hw].
+    assert (HF : Forall (fun v => in_type t v = true) vs) by (apply Forall_forall; rewrite forallb_forall in Hall; auto).
+    destruct (arr_children t vs Hw IHt HF) as (F3 & HL & DS).
+    intros m d. cbn [venc is_dynamic negb enc fst snd].
+    set (all := map (fun x => (is_dynamic t, enc t x)) vs) in *.
+    set (m1 := mstore m d (zlen vs)).
+    pose proof (sb_nonneg t Hw) as Hsb. pose proof (zlen_nonneg vs) as Hv0.
+    set (BOUND := (emb_static t + embdyn t) * b).
+    assert (Hsz : size_bound (TDArr t b) = 32 + BOUND).
+    { unfold BOUND, size_bound, emb_static, embdyn, size_bound. cbn [static_size dynamic_size_bound]. destruct (is_dynamic t); lia. }
+    rewrite <- HL.
+    pose proof (venc_seq_ok (head_first S) all (d + 32) BOUND m1 _ _ _ F3 [] m1 eq_refl) as Q.
+    cbn [head_len tails app] in Q. rewrite Z.add_0_r in Q.
+    destruct Q as (Q1 & Q2 & Q3 & Q4); auto.
+    { rewrite DS, HL. unfold BOUND. nia. }
+    pose proof (head_len_nonneg all). pose proof (zlen_nonneg (tails all)).
+    assert (L : zlen (word (zlen vs) ++ enc_seq all) = 32 + (head_len all + zlen (tails all)))
+      by (unfold enc_seq; rewrite !zlen_app, zlen_word, zlen_heads; lia).
+    rewrite L, Q1. split; [reflexivity|]. split.
+    + rewrite mreadz_app by lia. f_equal.
+      * transitivity (mreadz m1 d 32). { apply mreadz_ext. intros a Ha. apply Q4. lia. }
+        pose proof (mreadz_mwrite m d (word (zlen vs))) as X. rewrite zlen_word in X. exact X.
+      * rewrite mreadz_app by lia. unfold enc_seq. now rewrite Q2, Q3.
+    + intros a Ha. rewrite Hsz in Ha. rewrite Q4 by lia. unfold m1, mstore. apply mwrite_frame. rewrite zlen_word. lia.
+  - (* tuple *)
+    destruct (is_dynamic (TTuple ts)) eqn:Hd; [|apply venc_static; auto].
+    destruct v as [| |vs]; try (cbn in Hin; discriminate). cbn [in_type wf_ty] in *.
+    destruct (tuple_children ts H vs Hwf Hin) as (F3 & HL & DS).
+    intros m d. cbn [venc]. rewrite Hd. cbn [negb enc].
+    set (all := zip_apply (map (fun t' => (is_dynamic t', enc t')) ts) vs) in *.
+    assert (Hss : static_size (TTuple ts) = head_len all)
+      by (rewrite HL; cbn [static_size]; reflexivity).
+    rewrite Hss.
+    pose proof (venc_seq_ok (head_first S) all d (size_bound (TTuple ts)) m _ _ _ F3 [] m eq_refl) as Q.
+    cbn [head_len tails app] in Q. rewrite Z.add_0_r in Q.
+    destruct Q as (Q1 & Q2 & Q3 & Q4); auto.
+    { rewrite DS, HL. unfold size_bound. cbn [static_size dynamic_size_bound].
+      change (fun t' => if is_dynamic t' then 32 else static_size t') with emb_static.
+      change (fun t' => if is_dynamic t' then static_size t' + dynamic_size_bound t' else 0) with embdyn. lia. }
+    pose proof (head_len_nonneg all). pose proof (zlen_nonneg (tails all)).
+    assert (L : zlen (enc_seq all) = head_len all + zlen (tails all)) by (unfold enc_seq; rewrite zlen_app, zlen_heads; lia).
+    rewrite L. split; [exact Q1|]. split; [|exact Q4].
+    rewrite mreadz_app by lia. unfold enc_seq. now rewrite Q2, Q3.
+Qed.
+End Enc.
+
+(* ---------- instances ---------- *)
+Theorem venc_l_spec : forall J t v, wf_ty t = true -> in_type t v = true ->
+  spec_of (venc_l J t v) (enc t v) (size_bound t).
+Proof. intros J t v. apply (venc_spec (legacy J) (legacy_wbytes_ok J)). Qed.
+Theorem venc_v_spec : forall t v, wf_ty t = true -> in_type t v = true ->
+  spec_of (venc_v t v) (enc t v) (size_bound t).
+Proof. intros t v. apply (venc_spec venom venom_wbytes_ok). Qed.
